@@ -75,7 +75,11 @@ func genC11() *rapid.Generator[c11Case] {
 			}
 			seen[p.Ns+"/"+p.Name] = true
 			p.OwnerKind = rapid.SampledFrom([]string{"", "StatefulSet", "ReplicaSet", "ReplicaSet", "Deployment", "TApp", "Foo", "GameStatefulSet",
-				"statefulset", "DaemonSet", "Job", "CloneSet"}).Draw(t, "ownerKind")
+				"statefulset", "DaemonSet", "Job", "CloneSet", "Redis", "Process", "Ingress", "StorageClass", "StatefulSets", "TApps", "S", "Ss"}).Draw(t, "ownerKind")
+			if rapid.IntRange(0, 4).Draw(t, "anyKind") == 0 {
+				// any kind a custom resource definition may declare (CamelCase; plural-looking and double-s endings included)
+				p.OwnerKind = rapid.StringMatching(`[A-Z][a-z]{0,6}([A-Z][a-z]{1,5})?(s|ss|es)?`).Draw(t, "crdKind")
+			}
 			if p.OwnerKind != "" {
 				p.OwnerName = genDNSLabel(t, "owner", 63)
 				if p.OwnerKind == "ReplicaSet" && rapid.IntRange(0, 3).Draw(t, "rsHash") > 0 {
